@@ -2,6 +2,7 @@
     Only statements, each closed by [exact] of a lemma proved elsewhere, with its assumptions. *)
 From Coq Require Import String List NArith Bool.
 From IastRw Require Import Ast Generated Config Model HookSites WfTree P_Telemetry P_Count P_CountGlobal.
+Import ListNotations.
 
 (** With verbosity off the count stays zero and no breakdown is accumulated. *)
 Theorem C15_off_counts_nothing : forall st tag t,
